@@ -16,7 +16,7 @@
 using namespace vf;
 typedef bxdecay0_g4::PrimaryGeneratorAction PGA;
 
-struct Case { PGA::ConfigurationInterface cf; int vkind = 0; /*0 none 1 unique 2 scripted 3 exhausted 4 heap generator lent by reference 5 heap generator handed over by pointer*/ G4ThreeVector pos; int nev = 1; std::string nclass; bool detach_first = false; };
+struct Case { PGA::ConfigurationInterface cf; int vkind = 0; /*0 none 1 unique 2 scripted 3 exhausted 4 heap generator lent by reference 5 heap generator handed over by pointer*/ G4ThreeVector pos; int nev = 1; std::string nclass; bool detach_first = false; int route = 0; /* how the request reaches the action: 0 SetConfiguration; 1 GrabConfiguration() = request, then ApplyConfiguration(); 2 SetConfiguration then an explicit ApplyConfiguration() */ };
 // a vertex generator that records its own destruction: one LENT by reference must outlive the action, whatever was attached or detached before
 struct LentVG : public bxdecay0_g4::VertexGeneratorInterface { G4ThreeVector p; int * deaths; LentVG(const G4ThreeVector & p_, int * d) : p(p_), deaths(d) {} ~LentVG() override { (*deaths)++; } void ShootVertex(G4ThreeVector & v) override { v = p; } };
 struct VGBook { std::vector<LentVG *> lent; std::vector<int *> lent_deaths; };
@@ -112,7 +112,11 @@ static Res run_steps_on(PGA & action, VGBook & book, const std::vector<Case> & s
     G4RunManager::GetRunManager()->abort_count = 0; G4StubExceptions::count() = 0;
     std::vector<G4Event> evs(c.nev); bool threw = false; std::string what; std::vector<G4ThreeVector> vtx;
     if (destroy_before[si]) action.DestroyConfiguration();
-    action.SetConfiguration(c.cf);
+    // routes 1 and 2 only for requests the interface itself calls valid (for the others ApplyConfiguration() only prints an error: nothing the
+    // property speaks about); a request handed over through GrabConfiguration() + ApplyConfiguration() must be taken up like any other
+    if (c.route == 1 && c.cf.is_valid()) { action.GrabConfiguration() = c.cf; action.ApplyConfiguration(); nt += "grab+apply;"; }
+    else if (c.route == 2 && c.cf.is_valid()) { action.SetConfiguration(c.cf); action.ApplyConfiguration(); nt += "set+apply;"; }
+    else action.SetConfiguration(c.cf);
     svg.seq.clear(); svg.k = 0; svg.exhausted = false; upvg.SetSourcePosition(c.pos);
     if (c.detach_first) action.SetVertexGenerator((bxdecay0_g4::VertexGeneratorInterface *)nullptr);   // detach whatever was attached ("origin if none")
     if (c.vkind == 1) action.SetVertexGenerator(upvg);
@@ -169,7 +173,7 @@ static Case gen_case(uint64_t h)
     if (r.chance(0.35)) { f.nuclide = r.pick(dbd); f.dbd_level = r.chance(0.6) ? 0 : r.range(1, 4); f.dbd_mode = r.range(1, 20); c.nclass = "generated-level-mode"; } }
   else f.nuclide = r.pick(bkg);
   f.seed = r.chance(0.6) ? r.range(1, 1000000) : (int[]){1, 42, 314159, 2147483647}[r.range(0, 3)];
-  c.nev = r.range(1, 4); c.vkind = r.range(0, 2); if (r.chance(0.05)) c.vkind = 3; else if (r.chance(0.3)) c.vkind = r.range(4, 5); c.detach_first = r.chance(0.3); c.pos = G4ThreeVector(r.uniform(-50, 50), r.uniform(-50, 50), r.uniform(-50, 50));
+  c.nev = r.range(1, 4); c.vkind = r.range(0, 2); if (r.chance(0.05)) c.vkind = 3; else if (r.chance(0.3)) c.vkind = r.range(4, 5); c.detach_first = r.chance(0.3); c.route = r.chance(0.4) ? r.range(1, 2) : 0; c.pos = G4ThreeVector(r.uniform(-50, 50), r.uniform(-50, 50), r.uniform(-50, 50));
   if (r.chance(0.2)) { f.use_mdl = true; static const char * nm[] = {"e-", "gamma", "all", "*", "alpha", "e+"}; f.mdl_target_name = nm[r.range(0, 5)]; f.mdl_target_rank = r.range(-1, 2); f.mdl_cone_longitude = r.uniform(0, 360); f.mdl_cone_colatitude = r.uniform(0, 180); f.mdl_cone_aperture = r.uniform(0, 80); if (r.chance(0.3)) f.mdl_cone_aperture2 = r.uniform(1, 80); }
   // mutations
   int nm = r.chance(0.45) ? 0 : r.range(1, 2);
